@@ -259,6 +259,30 @@ let hist_of id =
   | Some x -> x
   | None -> let x = { prev = None; kind = "atomic"; failed_apply = false; rollbacks = 0; crashes = 0; before_change = Hashtbl.create 8 } in Hashtbl.replace hists h x; x
 
+(* C09: the results of the no-effect proposal reconciles since the last state-changing step of a history *)
+let c09_results : (string, ((int * int) * string) list) Hashtbl.t = Hashtbl.create 64
+let c09_hid id = List.hd (String.split_on_char ':' id)
+let c09_reset id = Hashtbl.replace c09_results (c09_hid id) []
+let c09_note id (label : sx) (res : string) =
+  match lst label with
+  | [ A "rec"; A "prop"; t; i; A "all"; _ ] ->
+    let k = (inum t, inum i) in
+    let l = try Hashtbl.find c09_results (c09_hid id) with Not_found -> [] in
+    Hashtbl.replace c09_results (c09_hid id) ((k, res) :: List.remove_assoc k l)
+  | _ -> ()
+
+(* F-21: a transaction whose apply FAILED still has a committed proposal without apply phase, and the applied index of that
+   target is below it: the target is wedged.  Returns (transaction, target) list *)
+let c09_wedged (w : (cmap, cmap, req, dstate) world) : (int * int) list =
+  let props = props_of w and cfgs = cfgs_of w in
+  List.concat_map (fun (i, t) ->
+      if t.t_apply = Some Failed then
+        List.filter_map (fun ((tt, ii), p) ->
+            if ii = i && p.p_commit = Some Done && p.p_apply = None && p.p_abort = None
+               && (match find_assoc tt cfgs with Some c -> int_of_n c.c_applied < i | None -> false)
+            then Some (i, tt) else None) props
+      else []) (txs_of w)
+
 (* ------------------------------------------------------------------ monitors on one observed step *)
 let monitors id (label : sx) (pre : istate) (post : istate) (dl : (n * n * n * req * code) list) =
   let prew = pre.w and postw = post.w in
@@ -364,6 +388,26 @@ let monitors id (label : sx) (pre : istate) (post : istate) (dl : (n * n * n * r
        | [ A "rec"; A "cfg"; _; _; _ ] ->
          if c.c_state <> CSynchronizing then specviol id "c10_resync_outside_synchronizing" (Printf.sprintf "target %d" t)
        | _ -> specviol id "c10_request_from_unexpected_step" (Printf.sprintf "target %d" t))) dl;
+  (* C04: after a complete apply answered OK, and after a completed re-push, the device holds what the applied values
+     stand for (live leaves that are not beneath a deleted path) *)
+  (let complete = match lst label with
+     | [ A "rec"; A "prop"; _; _; A "all"; _ ] | [ A "rec"; A "cfg"; _; A "all"; _ ] -> true | _ -> false in
+   if complete && dl <> [] && List.for_all (fun (_, _, _, _, c) -> c = COk) dl then
+     List.iter (fun t ->
+       match find_assoc (int_of_n t) pcfg, find_assoc (int_of_n t) qcfg with
+       | Some c1, Some c0 ->
+         let synced_now = c1.c_state = CSynchronized && int_of_n c1.c_aterm = int_of_n c1.c_term in
+         let progressed = int_of_n c1.c_applied <> int_of_n c0.c_applied || (c0.c_state = CSynchronizing && c1.c_state = CSynchronized) in
+         if synced_now && progressed then begin
+           let dev = match List.assoc_opt t (w_devs postw) with
+             | Some d -> List.sort compare (List.map (fun (p, v) -> (str_of p, str_of v)) d.d_state) | None -> [] in
+           let app = List.sort compare (List.map (fun (p, v) -> (str_of p, str_of v)) (live (overlay c1.c_ainline c1.c_avalues))) in
+           (* a device that was restarted without losing its connection is outside the property *)
+           if dev <> app && not (hist_of id).failed_apply then
+             specviol id "c04_device_differs_after_apply" (Printf.sprintf "target %s device=[%s] applied=[%s]" (sn t)
+               (String.concat "," (List.map (fun (p, v) -> p ^ "=" ^ v) dev)) (String.concat "," (List.map (fun (p, v) -> p ^ "=" ^ v) app)))
+         end
+       | _ -> ()) (List.sort_uniq compare (List.map (fun (t, _, _, _, _) -> t) dl)));
   (* C11: a refused request leaves the device as it was *)
   List.iter (fun (t, _, _, _, code) ->
     if code <> COk then begin
@@ -436,9 +480,56 @@ let end_monitors hid (st : istate) quiescent (nb : sx) (gets : string) =
       let targets_persistent = match t.t_props with
         | Some tg -> List.exists (fun tt -> List.assoc_opt tt (w_targets w) = Some true) tg | None -> false in
       let terminal = t.t_state = TApplied || (t.t_state = TFailed && (t.t_abort = Some Done || t.t_apply = Some Failed)) in
+      let behind_wedge = List.exists (fun (wi, wt) -> wi < i && List.mem_assoc (wt, i) props) (c09_wedged w) in
       if not terminal && not targets_persistent then
-        specviol hid "c09_stranded_transaction" (Printf.sprintf "transaction %d is %s init=%s val=%s com=%s app=%s abo=%s at the fixed point" i (s_ts t.t_state)
+        specviol hid (if behind_wedge then "c09_unapplied_behind_failed_tx" else "c09_stranded_transaction") (Printf.sprintf "transaction %d is %s init=%s val=%s com=%s app=%s abo=%s at the fixed point" i (s_ts t.t_state)
           (s_ph t.t_init) (s_ph t.t_validate) (s_ph t.t_commit) (s_ph t.t_apply) (s_ph t.t_abort))) txs;
+  (* C09 / F-21: the wedged target itself (whether or not the run came to rest) *)
+  List.iter (fun (i, tt) ->
+      specviol hid "c09_unapplied_behind_failed_tx"
+        (Printf.sprintf "transaction %d failed its apply, its proposal on target %d is committed, has no apply phase and applied index %s < %d: every later change of target %d waits for ever"
+           i tt (match find_assoc tt cfgs with Some c -> sn c.c_applied | None -> "?") i tt)) (c09_wedged w);
+  (* C09: at the fixed point no two proposals may re-queue each other (the work queue would never drain) *)
+  if quiescent then begin
+    let rs = try Hashtbl.find c09_results hid with Not_found -> [] in
+    List.iter (fun ((t1, i1), r1) ->
+        match String.split_on_char ':' r1 with
+        | [ "rqprop"; t2; i2 ] ->
+          let k2 = (int_of_string t2, int_of_string i2) in
+          if (t1, i1) < k2 && List.assoc_opt k2 rs = Some (Printf.sprintf "rqprop:%d:%d" t1 i1) then begin
+            let wedged = List.exists (fun (wi, wt) -> wt = t1 && (wi = i1 || wi = snd k2)) (c09_wedged w) in
+            (* the member that is COMMITTED without apply phase, and whether its transaction is parked at the apply gate
+               (SERIALIZABLE predecessor not APPLIED yet, F-02d) *)
+            let gated = List.exists (fun (tt, ii) ->
+                match find_assoc (tt, ii) props, find_assoc ii txs with
+                | Some p, Some tx -> p.p_commit = Some Done && p.p_apply = None && tx.t_commit = Some Done && tx.t_apply = None && tx.t_abort = None
+                | _ -> false) [ (t1, i1); k2 ] in
+            let st (tt, ii) = match find_assoc (tt, ii) props, find_assoc ii txs with
+              | Some p, Some tx -> Printf.sprintf "%d-%d[commit=%s apply=%s abort=%s; tx %s commit=%s apply=%s]" tt ii (s_ph p.p_commit) (s_ph p.p_apply) (s_ph p.p_abort)
+                                     (s_ts tx.t_state) (s_ph tx.t_commit) (s_ph tx.t_apply)
+              | _ -> Printf.sprintf "%d-%d[?]" tt ii in
+            specviol hid (if wedged then "c09_unapplied_behind_failed_tx" else if gated then "c09_requeue_pair_behind_gate" else "c09_requeue_pair")
+              (Printf.sprintf "at the fixed point the reconciles of proposals %s and %s do nothing and re-queue each other" (st (t1, i1)) (st k2))
+          end
+        | _ -> ()) rs
+  end;
+  (* C09: at the fixed point no proposal whose turn it is waits in APPLYING on a target that is mastered, synchronised and connected *)
+  if quiescent then
+    List.iter (fun ((tt, i), p) ->
+        if p.p_apply = Some Doing then
+          match find_assoc tt cfgs with
+          | Some c ->
+            let head = int_of_n c.c_applied < i && (int_of_n p.p_prev = 0 || int_of_n c.c_applied = int_of_n p.p_prev) in
+            let ready = c.c_state <> CSynchronizing && int_of_n c.c_aterm >= int_of_n c.c_term
+                        && List.mem_assoc (n_of_int tt) (w_targets w)
+                        && (match c.c_master with
+                            | Some m -> List.mem_assoc m (w_conns w) && (match List.assoc_opt m (w_rels w) with Some (_, true) -> true | _ -> false)
+                            | None -> false) in
+            if head && ready then
+              specviol hid "c09_idle_apply_waiting"
+                (Printf.sprintf "proposal %d-%d is APPLYING, applied index %s, prev %s, configuration %s in term %s/%s with a live master, and no reconcile sends it"
+                   tt i (sn c.c_applied) (sn p.p_prev) (s_cs c.c_state) (sn c.c_term) (sn c.c_aterm))
+          | None -> ()) props;
   (* C01: all-or-nothing at quiescence *)
   if quiescent then
     List.iter (fun (i, t) ->
@@ -651,6 +742,25 @@ let label_name (label : sx) = match lst label with
   | A a :: _ -> a
   | _ -> "?"
 
+(* C05: the chunking of one validation stream, restated on the observed chunk sizes (pkg/pluginregistry Validate,
+   chunkSize = 100000; proved for the model in Proofs/P2_Chunks.v): every chunk non-empty, all but the last exactly
+   chunkSize, the last at most chunkSize, ceil(len/chunkSize) chunks *)
+let c05_chunk_size = 100000
+let c05_check_chunks hid (streams : string) =
+  if streams <> "none" then
+    List.iteri (fun k st ->
+      let sizes = if st = "-" || st = "" then [] else List.map int_of_string (String.split_on_char ',' st) in
+      let len = List.fold_left (+) 0 sizes and n = List.length sizes in
+      stat "c05.validation_streams";
+      if n > 1 then stat "c05.multi_chunk_streams";
+      if len mod c05_chunk_size = 0 && len > 0 then stat "c05.streams_at_exact_multiple";
+      let bad why = specviol hid "c05_chunking" (Printf.sprintf "validation stream %d: %s (chunk sizes %s, document of %d bytes)" k why (if st = "" then "-" else st) len) in
+      if List.exists (fun c -> c <= 0) sizes then bad "empty chunk"
+      else if List.exists (fun c -> c > c05_chunk_size) sizes then bad "chunk longer than the chunk size"
+      else if (match List.rev sizes with [] -> false | _ :: init -> List.exists (fun c -> c <> c05_chunk_size) init) then bad "a chunk before the last one is not full"
+      else if n <> (len + c05_chunk_size - 1) / c05_chunk_size then bad "number of chunks is not ceil(len/chunkSize)")
+      (String.split_on_char ';' streams)
+
 let () =
   each_line (function
     | [ "p2.hist"; hid; kind; st ] ->
@@ -665,6 +775,7 @@ let () =
       let dl = decode_devlog (parse_sx dl) in
       let res = match rest with r :: _ -> r | [] -> "" in
       stat ("step." ^ label_name label);
+      c09_reset id;
       if res = "crash" then (stat "step.crashed"; h.crashes <- h.crashes + 1);
       if List.exists (fun (_, _, _, _, c) -> c <> COk) dl then h.failed_apply <- true;
       (match lst label with A "devpolicy" :: _ -> h.failed_apply <- true | A "nbrollback" :: _ -> h.rollbacks <- h.rollbacks + 1 | _ -> ());
@@ -684,6 +795,7 @@ let () =
       let label = parse_sx label in
       stat ("noop." ^ label_name label);
       (match h.prev, rest with Some pre, r :: _ -> check_result id label pre [] r | _ -> ());
+      (match rest with r :: _ -> c09_note id label r | [] -> ());
       (match h.prev with
        | Some pre ->
          (match lst label with
@@ -711,4 +823,5 @@ let () =
          sample (Printf.sprintf "history %s (%s): %d transactions, %d targets, %d crashed reconciles, %s steps; final states: %s" hid h.kind ntx (List.length (w_targets st.w)) h.crashes steps
                    (String.concat "," (List.map (fun (i, t) -> Printf.sprintf "%d:%s" i (s_ts t.t_state)) (txs_of st.w))))
        | None -> ())
+    | "p2.chunks" :: hid :: streams :: _ -> c05_check_chunks hid streams
     | _ -> stat "ignored")
